@@ -106,7 +106,52 @@ def _repo_root(repo):
     return repo
 
 
+def kani_varint(prop, repo, status, lines, ev):
+    import kani_varint as kv
+    res = kv.run(repo, playback=True)
+    obls = []
+    for r in res:
+        obls.append({"name": "kani/varint/" + r["harness"], "engine": "kani", "backend": "cbmc (Kani 0.68)", "mode": "exec",
+                     "ms": round(r["seconds"] * 1000.0, 1), "rlimit": 0, "discharged": r["status"] == "ok",
+                     "note": "complete for the stated input space (not a sample): " + kv.BOUND})
+    _add_obligations(ev, obls)
+    cov = ev["coverage"]
+    cov["checker_cmd"] = cov.get("checker_cmd", "") + " ; " + " ; ".join(r["cmd"] for r in res)
+    cov.setdefault("kani", {})
+    cov["kani"] = {"harness_crate": "kani/varint (includes /repo/src/common/protobuf_utils.rs by #[path])", "input_space": kv.BOUND,
+                   "what": "read_varint64_offset == ref_decode on that space; ref_decode == (vlen, vval) is a Verus obligation of unit pbutils",
+                   "stubs": "anyhow::__private::format_err (error construction = failure in ok_case, end of path in err_case)",
+                   "not_covered": "offsets > 2 (the function reads bytes[offset + k], k < 10, only); termination is not an issue (straight-line code)"}
+    cov.setdefault("trusted_base", []).append("[kani/varint] the contract of read_varint64_offset that the Verus units ASSUME is discharged by Kani for slices of <= 12 bytes and offsets <= 2 only; for larger offsets it stays an assumption")
+    for r in res:
+        if r["status"] == "undecided":
+            lines.append("UNDECIDED: kani/varint/%s: %s" % (r["harness"], r["detail"][:600]))
+            if status == 0:
+                status = 2
+        elif r["status"] == "failed":
+            os.makedirs(os.path.join(VERIF, "replays"), exist_ok=True)
+            native = kv.native_replay(repo, r["cex"]) if r["cex"] else None
+            h = hashlib.sha256(json.dumps(r["cex"], sort_keys=True).encode()).hexdigest()[:10]
+            path = os.path.join(VERIF, "replays", "%s-kani-varint-%s-%s.json" % (prop, r["harness"], h))
+            reproduced = bool(native and native.get("reproduced"))
+            json.dump({"property": prop, "unit": "kani/varint", "failed_obligation": "kani/varint/" + r["harness"] + " — " + r["detail"],
+                       "counterexample": r["cex"], "native_replay": native, "verifier_output": r.get("output_tail", ""),
+                       "how_to_replay": "cd /verif && python3 lib/kani_varint.py"}, open(path, "w"), indent=1)
+            lines.append("obligation failed: kani/varint/%s — %s — counterexample %s" % (r["harness"], r["detail"][:200], json.dumps(r["cex"])))
+            lines.append(("VIOLATION property=%s replay=%s %s" % (prop, path, "" if reproduced else "no-failing-input-found")).rstrip())
+            ev["violations"] = ev.get("violations", 0) + 1
+            status = 1
+    return status, lines, ev
+
+
 def run(prop, tier, repo, seed, status, lines, ev, only_units=None):
+    if prop in ("C20", "C02") and (not only_units or "pbutils" in only_units) and os.path.exists(os.path.join(repo, "src", "common", "protobuf_utils.rs")):
+        try:
+            status, lines, ev = kani_varint(prop, repo, status, lines, ev)
+        except Exception as e:
+            lines.append("UNDECIDED: kani/varint: %s" % str(e)[:600])
+            if status == 0:
+                status = 2
     if prop == "C17" and (not only_units or "permission" in only_units):
         try:
             status, lines, ev = c17_tables(repo, status, lines, ev)
